@@ -88,8 +88,8 @@ def run(ctx):
     ]
     ctx.tested_not_proved = [
         "numerical agreement of jacobian with finite differences of forward (1e-4) - tested",
-        "Softmax: jacobian = determinant of the partial derivatives for dimension >= 3 "
-        "(proved for dimensions 1 and 2; tested numerically for n <= 5)",
+        "Softmax: jacobian = determinant of the partial derivatives for dimension >= 4 "
+        "(proved for dimensions 1, 2 and 3; tested numerically for n <= 5)",
         "monotonicity of Yeo-Johnson across the sliver 0 < w < EPS (not claimed; DESIGN 5/C02 G)",
         "Log with a base < 1 is decreasing: outside the positivity clause (generators use base > 1)",
     ]
